@@ -175,6 +175,27 @@ pub fn check_crash_dir(
         f
     })?;
     let mut model = if which == 0 { a.clone() } else { b.unwrap().clone() };
+    let model0 = model.clone();
+    // the first half of the post ops is applied to the store as recovered the FIRST time (what
+    // it writes must survive the next restart), the second half after the second recovery
+    let (post_first, post) = post.split_at(post.len() / 2);
+    for (i, op) in post_first.iter().enumerate() {
+        let opi = 500 + i;
+        let got = ap.apply(opi, op);
+        let want = model_apply(&mut model, keys, opi, op);
+        if got != want {
+            return Err(fail(
+                "post-recovery-op-wrong",
+                format!(
+                    "{}: op {:?} on the recovered store returned {}, the model says {}",
+                    what,
+                    op,
+                    crate::rec::trunc(&got),
+                    crate::rec::trunc(&want)
+                ),
+            ));
+        }
+    }
     ap.close();
     // crash during recovery: every proper prefix of the recovery's own mutating calls
     let dname = dir.file_name().unwrap().to_string_lossy().to_string();
@@ -193,14 +214,14 @@ pub fn check_crash_dir(
         if let Err(e) = ap2.open() {
             return Err(fail("recovery-failed", format!("{} + crash after {} call(s) of recovery: {}", what, j, e)));
         }
-        match_models(&ap2, keys, &model, None).map_err(|mut f| {
+        match_models(&ap2, keys, &model0, None).map_err(|mut f| {
             f.msg = format!("{} + crash after {} call(s) of recovery: {}", what, j, f.msg);
             f
         })?;
         ap2.close();
         let _ = std::fs::remove_dir_all(&d2);
     }
-    // recovery 2 on what recovery 1 left behind (= crash right after recovery completed)
+    // recovery 2 on what recovery 1 (and the first post ops) left behind
     if let Err(e) = ap.open() {
         return Err(fail("recovery-failed", format!("{}: second recovery: {}", what, e)));
     }
